@@ -674,7 +674,7 @@ func (e *Engine) applyContractSig(st *State, fr *Frame, x *ssa.Call, name string
 			env[spec.Results[i]] = rv
 		}
 	}
-	post := &specCtx{e: e, st: st, env: env, heaps: st.heaps, oldHeaps: oldHeaps, pkg: pre.pkg, oldAlloc: oldAlloc}
+	post := &specCtx{e: e, st: st, env: env, heaps: st.heaps, oldHeaps: oldHeaps, pkg: pre.pkg, oldAlloc: oldAlloc, iters: e.freshIters(st, name)}
 	for _, u := range spec.Unfolds {
 		post.unfold(u)
 	}
